@@ -477,6 +477,10 @@ func (w *world) varItemObs(ev *eval.Evaler, buf string, from, to int, ins string
 		// a namespace prefix (e: E: or ns:) is offered for further completion, not a variable
 		return App("mkIObs", "WNoWord", App("EStr", Str(name))), "namespace " + name
 	}
+	if err == nil && strings.HasPrefix(pn.Value, "@") {
+		// an exploded variable: only that it is a readable variable is observed
+		return App("mkIObs", "WNoWord", App("EStr", Str(name))), "exploded variable " + name
+	}
 	if err != nil || len(vs) != 1 {
 		return bad(fmt.Sprintf("evaluation of %q: %d values, err=%v", parse.SourceText(pn), len(vs), err))
 	}
@@ -662,6 +666,9 @@ func (w *world) oneCase(c *reg.Ctx, ev *eval.Evaler, t template) {
 			if st == parse.Bareword && (!bareSafe(part) || prevBare || (prevVar && !strings.HasPrefix(part, "/")) ||
 				(len(pieces) > 0 && pieces[len(pieces)-1].style == parse.Tilde && !strings.HasPrefix(part, "/"))) {
 				st = parse.SingleQuoted
+			}
+			if st == parse.SingleQuoted && len(pieces) > 0 && pieces[len(pieces)-1].style == parse.SingleQuoted {
+				st = parse.DoubleQuoted // two adjacent single-quoted pieces would read as one with an escaped quote
 			}
 			if st == parse.SingleQuoted && !utf8.ValidString(part) {
 				st = parse.DoubleQuoted
